@@ -292,6 +292,7 @@ func (w *WAL) mutateStateLocked(tx stateTxn) error {
 	if err := w.metaDB.CommitState(newS.Persistent()); err != nil {
 		return err
 	}
+	verifPoint("mutate.committed")
 
 	if postCommit != nil {
 		if err := postCommit(); err != nil {
@@ -300,6 +301,7 @@ func (w *WAL) mutateStateLocked(tx stateTxn) error {
 	}
 
 	w.s.Store(&newS)
+	verifPoint("mutate.stored")
 	s.finalizer.Store(fn)
 	return nil
 }
@@ -310,6 +312,7 @@ func (w *WAL) mutateStateLocked(tx stateTxn) error {
 // truncated concurrently.
 func (w *WAL) acquireState() (*state, func()) {
 	s := w.loadState()
+	verifPoint("acquireState.loaded")
 	return s, s.acquire()
 }
 
@@ -332,6 +335,7 @@ func (w *WAL) FirstIndex() (uint64, error) {
 	if err := w.checkClosed(); err != nil {
 		return 0, err
 	}
+	verifPoint("FirstIndex.checked")
 	s, release := w.acquireState()
 	defer release()
 	return s.firstIndex(), nil
@@ -342,6 +346,7 @@ func (w *WAL) LastIndex() (uint64, error) {
 	if err := w.checkClosed(); err != nil {
 		return 0, err
 	}
+	verifPoint("LastIndex.checked")
 	s, release := w.acquireState()
 	defer release()
 	return s.lastIndex(), nil
@@ -352,6 +357,7 @@ func (w *WAL) GetLog(index uint64, log *raft.Log) error {
 	if err := w.checkClosed(); err != nil {
 		return err
 	}
+	verifPoint("GetLog.checked")
 	s, release := w.acquireState()
 	defer release()
 	w.metrics.IncrementCounter("log_entries_read", 1)
@@ -381,6 +387,7 @@ func (w *WAL) StoreLogs(logs []*raft.Log) error {
 		return nil
 	}
 
+	verifPoint("StoreLogs.checked")
 	w.writeMu.Lock()
 	defer w.writeMu.Unlock()
 
@@ -449,6 +456,7 @@ func (w *WAL) StoreLogs(logs []*raft.Log) error {
 	if err := s.tail.Append(encoded); err != nil {
 		return err
 	}
+	verifPoint("StoreLogs.appended")
 	w.metrics.IncrementCounter("log_appends", 1)
 	w.metrics.IncrementCounter("log_entries_written", uint64(len(encoded)))
 	w.metrics.IncrementCounter("log_entry_bytes_written", nBytes)
@@ -471,7 +479,9 @@ func (w *WAL) awaitRotationLocked() {
 		// We managed to race for writeMu with the background rotate operation which
 		// needs to complete first. Wait for it to complete.
 		w.writeMu.Unlock()
+		verifPoint("awaitRotation.unlocked")
 		<-awaitCh
+		verifPoint("awaitRotation.woken")
 		w.writeMu.Lock()
 	}
 }
@@ -488,6 +498,7 @@ func (w *WAL) DeleteRange(min uint64, max uint64) error {
 		return nil
 	}
 
+	verifPoint("DeleteRange.checked")
 	w.writeMu.Lock()
 	defer w.writeMu.Unlock()
 
@@ -544,6 +555,7 @@ func (w *WAL) Set(key []byte, val []byte) error {
 	if err := w.checkClosed(); err != nil {
 		return err
 	}
+	verifPoint("Set.checked")
 	w.metrics.IncrementCounter("stable_sets", 1)
 	return w.metaDB.SetStable(key, val)
 }
@@ -553,6 +565,7 @@ func (w *WAL) Get(key []byte) ([]byte, error) {
 	if err := w.checkClosed(); err != nil {
 		return nil, err
 	}
+	verifPoint("Get.checked")
 	w.metrics.IncrementCounter("stable_gets", 1)
 	return w.metaDB.GetStable(key)
 }
@@ -596,6 +609,7 @@ func (w *WAL) triggerRotateLocked(indexStart uint64) {
 func (w *WAL) runRotate() {
 	for {
 		indexStart := <-w.triggerRotate
+		verifPoint("rotate.received")
 
 		w.writeMu.Lock()
 
@@ -607,6 +621,7 @@ func (w *WAL) runRotate() {
 		closed := atomic.LoadUint32(&w.closed)
 		if closed == 1 {
 			w.writeMu.Unlock()
+			verifPoint("rotate.exit")
 			return
 		}
 
@@ -622,6 +637,7 @@ func (w *WAL) runRotate() {
 		// Now we are done, close the channel to unblock the waiting writer if there
 		// is one
 		close(done)
+		verifPoint("rotate.done")
 	}
 }
 
@@ -932,6 +948,7 @@ func (w *WAL) Close() error {
 		// Only close once
 		return nil
 	}
+	verifPoint("Close.flagged")
 
 	// Wait for writes
 	w.writeMu.Lock()
@@ -949,6 +966,7 @@ func (w *WAL) Close() error {
 	defer s.release()
 
 	w.s.Store(&state{})
+	verifPoint("Close.stored")
 
 	// Old state might be still in use by readers, attach closers to all open
 	// segment files.
